@@ -76,6 +76,19 @@ rc, out = sh("go build ./...", wt)
 meta["builds"] = rc == 0
 rc, out = sh(SUITE, wt)
 ok, bad = suite_ok(out)
+if not ok:
+    # a few client tests are timing-flaky under load: a test that fails is rerun
+    # alone (three times); the suite counts as green if every failing test then
+    # passes each time
+    names = sorted(set(re.findall(r"^--- FAIL: (Test\w+)", out, re.M)))
+    pkgs = sorted(set(re.findall(r"^FAIL\t(github.com/256dpi/gomqtt/\S+)", out, re.M)))
+    if names and pkgs:
+        pat = "^(" + "|".join(names) + ")$"
+        rel = " ".join("./" + p_.split("gomqtt/", 1)[1] + "/" for p_ in pkgs)
+        rc2, out2 = sh("go test -vet=off -count=3 -run '%s' %s" % (pat, rel), wt)
+        if rc2 == 0:
+            ok = True
+            meta["suite_flaky_reruns"] = names
 meta["suite_green_with_mutant"] = ok
 meta["suite_notes"] = bad[:5]
 rc, out = run_demo()
